@@ -61,6 +61,12 @@ def tie_skeleton(ctx, broken, specs_faults, name, need_det_ok=True, extra_valid=
     nev = sum(len(P["iters"]) for _, P in out if P is not None and P.get("iters"))
     ctx.coverage["loop_iterations_compared"] = ctx.coverage.get("loop_iterations_compared", 0) + nev
     ctx.bad_traces = getattr(ctx, "bad_traces", []) + [trs[idx[b]] for b in bad]
+    from collections import Counter
+    bc = Counter(ctx.coverage.get("model_branches_exercised", {}))
+    for _, P in out:
+        if P is not None:
+            bc.update(S.branch_cover(P))
+    ctx.coverage["model_branches_exercised"] = dict(sorted(bc.items()))
     if not good:
         where = [trs[idx[b]]["spec"] for b in bad[:2]] if bad else []
         broken.append((f"correspondence:skeleton:{name}", f"model and optimize() differ on {len(bad)} runs, e.g. {where} {log[-300:]}"))
